@@ -103,11 +103,11 @@ def fmtPtr (t : HashTable) (p : Option (Option Nat)) : String :=
   | none => "-"
   | some k => if t.buckets.flatten.any (fun e => e.key == k) then toString (HT.encKey k) else "x"
 
-def fmtTable (t : HashTable) (it : Option HIter) (canRemove : Bool) : String :=
+def fmtTable (t : HashTable) (it : Option HIter) : String :=
   let base := s!"cap={t.capacity} size={t.size} thr={t.threshold} ents={fmtEnts t}"
   match it with
   | none => base
-  | some i => base ++ s!" it={i.bucketIndex}/{fmtPtr t i.prev}/{fmtPtr t i.next}/{if canRemove then 1 else 0}"
+  | some i => base ++ s!" it={i.bucketIndex}/{fmtPtr t i.prev}/{fmtPtr t i.next}"
 
 /-- derived arrays: slot number, array -/
 def fmtDarrObs (ds : List (Nat × List Nat)) : String :=
@@ -129,7 +129,6 @@ structure Sess where
   model  : Option HashTable := none
   spec   : Option Spec.Map := none
   iter   : Option HIter := none
-  canRemove : Bool := false
   /-- ideal cursor: keys not yet yielded, last yielded key -/
   stodo  : List Spec.Key := []
   slast  : Option Spec.Key := none
@@ -137,9 +136,6 @@ structure Sess where
   darr   : List (Nat × DArr) := []
   sdarr  : List (Nat × List Nat) := []
   mem    : Mem := {}
-  /-- built by the default constructor: the object lives on the C library allocator, which the
-  harness cannot make fail -/
-  deflt  : Bool := false
 
 def obsM (s : Sess) : String :=
   (match s.model with
@@ -152,7 +148,7 @@ def obsS (s : Sess) : String :=
 def physM (s : Sess) (ord : Option (List Nat)) : String :=
   (match s.model with
    | none => "-"
-   | some t => fmtTable t s.iter s.canRemove) ++ fmtDarrPhys s.darr ++
+   | some t => fmtTable t s.iter) ++ fmtDarrPhys s.darr ++
   (match ord with | none => "" | some l => s!" ord={fmtList l}")
 def invM (s : Sess) : Bool :=
   (match s.model with | none => true | some t => decide (t.Inv s.cfg)) && s.darr.all (fun d => decide d.2.Inv)
@@ -166,15 +162,15 @@ def slotOf (c : Cmd) : Nat := c.nat "to" (c.nat "o" 0)
 
 /-- returns the new session, the spec line and the model line -/
 def step (s : Sess) (c : Cmd) : Sess × String × String :=
-  let m := s.mem.begin (if s.deflt || c.op == "new_default" then [] else c.sched)
+  let m := s.mem.begin c.sched
   let slot := slotOf c
   match c.op with
   | "new" | "new_default" =>
     let cfg := if c.op == "new" then mkCfg c else defaultCfg
     let cap := if c.op == "new" then c.nat "cap" 16 else Gen.HASHTABLE_DEFAULT_CAPACITY
-    let (st, t, m) := HashTable.new cfg cap m
+    let (st, t, m) := HashTable.new cfg cap (if c.op == "new" then .conf else .libc) m
     let (sst, sp) := if c.fired > 0 then (Stat.errAlloc, none) else (Stat.ok, some Spec.Map.empty)
-    lines { cfg := cfg, model := t, spec := sp, mem := m, darr := s.darr, sdarr := s.sdarr, deflt := c.op == "new_default" } (fmtStat sst) (fmtStat st)
+    lines { cfg := cfg, model := t, spec := sp, mem := m, darr := s.darr, sdarr := s.sdarr } (fmtStat sst) (fmtStat st)
   | "arr_add" | "arr_destroy" =>
     match s.darr.find? (·.1 == slot), s.sdarr.find? (·.1 == slot) with
     | some (_, a), some (_, l) =>
@@ -236,7 +232,7 @@ def step (s : Sess) (c : Cmd) : Sess × String × String :=
         lines s' (fmtStat sst) (fmtStat st)
     | "it_new" =>
       let (it, m) := t.iterInit m
-      lines { s with iter := some it, canRemove := false, stodo := Spec.Map.keys sp, slast := none, mem := m } "st=-" "st=-"
+      lines { s with iter := some it, stodo := Spec.Map.keys sp, slast := none, mem := m } "st=-" "st=-"
     | "it_next" =>
       match s.iter with
       | none => lines { s with mem := m } "st=- noiter" "st=- noiter"
@@ -253,18 +249,20 @@ def step (s : Sess) (c : Cmd) : Sess × String × String :=
               (s!"{fmtStat .ok} k={HT.encKey e.key} v={e.value}", s.stodo.erase e.key, some e.key)
             else (s!"{fmtStat .ok} k=not-pending", s.stodo, s.slast)
           | none => (s!"{fmtStat .ok} k=pending-entries-left", s.stodo, s.slast)
-        lines { s with iter := some it', canRemove := (if st == .ok then true else s.canRemove), stodo := todo, slast := last, mem := m } hdS hdM
+        lines { s with iter := some it', stodo := todo, slast := last, mem := m } hdS hdM
     | "it_remove" =>
-      match s.iter, s.canRemove with
-      | some it, true =>
+      match s.iter with
+      | some it =>
         let noout := c.nat "noout" 0 != 0
-        let (st, out, t', m) := t.iterRemove s.cfg it m
+        let (st, out, t', it', m) := t.iterRemove s.cfg it m
+        -- ideal cursor: the last yielded entry can be removed once; otherwise KEY_NOT_FOUND
         let (sout, sp') := match s.slast with
           | some k => Spec.Map.step sp (.remove k) none
           | none => (⟨some .errKeyNotFound, none⟩, sp)
-        lines { s with model := some t', spec := some sp', canRemove := false, mem := m }
+        let last := if sout.st == some .ok then none else s.slast
+        lines { s with model := some t', spec := some sp', iter := some it', slast := last, mem := m }
           (hdOut (sout.st.getD .ok) (if noout then none else sout.val)) (hdOut st (if noout then none else out))
-      | _, _ => lines { s with mem := m } "st=- noiter" "st=- noiter"
+      | none => lines { s with mem := m } "st=- noiter" "st=- noiter"
     | "destroy_table" =>
       lines { s with model := none, spec := none, iter := none, mem := t.destroy m } "st=-" "st=-"
     | _ => lines { s with mem := m } "st=- badop" "st=- badop"
